@@ -63,11 +63,13 @@ AFTER = [["run", 1500], ["mqtt", "/settings/mode", "eco"], ["run", 1500], ["mqtt
 
 
 def wild_burst(k):
+    """every settings topic with the SAME out-of-the-ordinary payload (one scenario per payload: a later valid value would
+    overwrite an accepted bad one)"""
     acts = []
-    for i, t in enumerate(scenario.SETTINGS):
+    for t in scenario.SETTINGS:
         if t == "/settings/tank/force_empty":
             continue
-        acts.append(["mqtt", t, WILD[(i + k) % len(WILD)]])
+        acts.append(["mqtt", t, WILD[k % len(WILD)]])
     return acts
 
 
@@ -82,7 +84,7 @@ def stable():
         for v in (0, 1):
             json.dump({"opts": opts, "actions": prefix + burst(v)[:-1] + AFTER}, open(os.path.join(VERIF, "corpus", f"ps_{name}_{v}.json"), "w"))
             n += 1
-        for k in (0, 5):
+        for k in range(len(WILD)) if name in ("halt", "eco_normal", "standby_normal", "overflow_normal", "comfort", "wintering_waiting", "heating_running") else (0, 5):
             json.dump({"opts": opts, "actions": prefix + wild_burst(k) + AFTER}, open(os.path.join(VERIF, "corpus", f"ps_{name}_wild{k}.json"), "w"))
             n += 1
     print("stable-phase scenarios written", n)
